@@ -158,6 +158,21 @@ fn run(ch: Chooser, ctx: &RunCtx, mut opts: BasicOpts, clean_path: bool) -> RunO
         // on a loss-free, in-order, constant-delay path nothing is ever declared lost
         for c in &w.conns {
             let st = c.conn.stats();
+            // packets the path delivered and the peer threw away are lost all the same, and rightly
+            // declared so: 1-RTT packets that reach a peer still busy with the handshake (a
+            // congestion-blocked client sends its first MTU probe, which the window does not
+            // hold back, ahead of its own Finished) are authenticated and dropped unprocessed
+            let discarded_by_peer = if c.peer != NO_INC && (c.peer as usize) < w.conns.len() {
+                let peer = &w.conns[c.peer as usize];
+                let t = w.tap.lock().unwrap();
+                t.pkts.iter().filter(|p| !p.enc && p.ok && p.inc == peer.inc && p.space == Space::OneRtt && peer.connected_at.is_none_or(|at| p.t < at)).count() as u64
+            } else {
+                0
+            };
+            if discarded_by_peer > 0 && st.path.lost_packets <= discarded_by_peer {
+                w.probes.hit("loss_of_packets_the_peer_discarded_while_handshaking");
+                continue;
+            }
             if st.path.lost_packets > 0 || st.path.congestion_events > 0 {
                 let (k, d) = ("spurious-loss-on-clean-path".to_string(), format!("inc{}: lost_packets={} congestion_events={} on a path without loss, reordering or jitter (rtt {:?})", c.inc, st.path.lost_packets, st.path.congestion_events, st.path.rtt));
                 w.violate(k, d);
